@@ -51,6 +51,10 @@ var featureSrc = map[string]string{
 	"interface_type":           "type I interface{ IM() }\n",
 	"grouped_consts":           "const (\n\tK1 = iota\n\tK2\n)\n",
 	"local_alias_shadow":       "func fLA() {\n\ttype A = int\n\tvar _ A\n}\n",
+	// a module that a replace directive maps to a sibling directory, and a sub-package of it
+	"imports_replaced": "var _ dep.D\n\nvar _ depsub.DS\n",
+	// local types named like package-level types that have methods (plain and generic)
+	"local_shadow_generic": "func fLocalShadowG() {\n\ttype G struct{ Q string }\n\tvar _ G\n\tif true {\n\t\ttype A int\n\t\tvar _ A\n\t}\n}\n",
 }
 
 var featureNeeds = map[string]string{"method_value": "pkg_type", "method_pointer": "pkg_type", "generic_method_value": "generic_type", "generic_method_pointer": "generic_type"}
@@ -75,6 +79,9 @@ func synthSource(pkg string, feats []string) (string, error) {
 	fmt.Fprintf(&b, "package %s\n\n", pkg)
 	if set["imports_chain"] {
 		b.WriteString("import \"example.com/u/h1\"\n\n")
+	}
+	if set["imports_replaced"] {
+		b.WriteString("import (\n\t\"example.com/dep\"\n\tdepsub \"example.com/dep/sub\"\n)\n\n")
 	}
 	for _, f := range names {
 		b.WriteString(featureSrc[f])
@@ -151,6 +158,31 @@ func universeObserve(u *gengotypes.Universe, p gengotypes.Package) map[string]an
 				sf[name] = true
 				if p.Function(name) != obj {
 					identityBad = append(identityBad, "func:"+name)
+				}
+				// types declared inside the function body: they have no methods, whatever they are called
+				var walk func(sc *types.Scope)
+				walk = func(sc *types.Scope) {
+					for _, ln := range sc.Names() {
+						if tn, ok := sc.Lookup(ln).(*types.TypeName); ok && !tn.IsAlias() {
+							named, ok := tn.Type().(*types.Named)
+							if _, isIface := tn.Type().Underlying().(*types.Interface); ok && !isIface {
+								gotAll, gotVal := []string{}, []string{}
+								for _, m := range p.MethodsOf(named, false) {
+									gotVal = append(gotVal, m.Name())
+								}
+								for _, m := range p.MethodsOf(named, true) {
+									gotAll = append(gotAll, m.Name())
+								}
+								methods = append(methods, map[string]any{"type": "local:" + name + "." + ln, "want_all": []string{}, "want_value": []string{}, "got_all": gotAll, "got_value": gotVal})
+							}
+						}
+					}
+					for i := 0; i < sc.NumChildren(); i++ {
+						walk(sc.Child(i))
+					}
+				}
+				if obj.Scope() != nil {
+					walk(obj.Scope())
 				}
 			}
 		}
@@ -258,10 +290,13 @@ func (universeFam) ExecAll(cases []core.CaseIn, seed int64, emit func(c core.Cas
 		if err != nil {
 			return err
 		}
-		files := map[string]string{"go.mod": "module example.com/u\n\ngo 1.24\n",
-			"h1/h1.go": "package h1\n\nimport \"example.com/u/h2\"\n\ntype H struct{ V h2.H2 }\n",
-			"h2/h2.go": "package h2\n\nimport \"example.com/u/h3\"\n\ntype H2 struct{ W h3.H3 }\n",
-			"h3/h3.go": "package h3\n\ntype H3 int\n"}
+		files := map[string]string{"u/go.mod": "module example.com/u\n\ngo 1.24\n\nrequire example.com/dep v0.0.0\n\nreplace example.com/dep => ../dep\n",
+			"u/h1/h1.go":     "package h1\n\nimport \"example.com/u/h2\"\n\ntype H struct{ V h2.H2 }\n",
+			"u/h2/h2.go":     "package h2\n\nimport \"example.com/u/h3\"\n\ntype H2 struct{ W h3.H3 }\n",
+			"u/h3/h3.go":     "package h3\n\ntype H3 int\n",
+			"dep/go.mod":     "module example.com/dep\n\ngo 1.24\n",
+			"dep/dep.go":     "package dep\n\ntype D struct{}\n\nfunc (D) DM() {}\n",
+			"dep/sub/sub.go": "package sub\n\ntype DS int\n\nfunc (*DS) DSM() {}\n"}
 		srcs := map[int]string{}
 		for j := i; j < i+perMod && j < len(synth); j++ {
 			src, err := synthSource(fmt.Sprintf("s%d", j), synthCases[j].Features)
@@ -269,13 +304,13 @@ func (universeFam) ExecAll(cases []core.CaseIn, seed int64, emit func(c core.Cas
 				return err
 			}
 			srcs[j] = src
-			files[fmt.Sprintf("s%d/s.go", j)] = src
+			files[fmt.Sprintf("u/s%d/s.go", j)] = src
 		}
 		if err := core.WriteFiles(dir, files); err != nil {
 			return err
 		}
 		restore := core.Silence()
-		u, err := gengotypes.Load([]string{"./..."}, gengotypes.WithDir(dir))
+		u, err := gengotypes.Load([]string{"./..."}, gengotypes.WithDir(filepath.Join(dir, "u")))
 		restore()
 		if err != nil {
 			os.RemoveAll(dir)
@@ -290,9 +325,9 @@ func (universeFam) ExecAll(cases []core.CaseIn, seed int64, emit func(c core.Cas
 			emit(synth[j], map[string]any{"kind": "synthetic", "features": synthCases[j].Features, "pkg": p.Pkg().Path()}, map[string]any{"source": srcs[j]}, universeObserve(u, p))
 		}
 		// the helper chain is part of the universe too (registered through imports only when a package uses it)
-		for _, h := range []string{"h1", "h2", "h3"} {
-			if p := u.Package("example.com/u/" + h); p != nil {
-				emit(synth[i], map[string]any{"kind": "synthetic", "features": []string{"helper"}, "pkg": p.Pkg().Path()}, map[string]any{"source": files[h+"/"+h+".go"]}, universeObserve(u, p))
+		for _, h := range []string{"example.com/u/h1", "example.com/u/h2", "example.com/u/h3", "example.com/dep", "example.com/dep/sub"} {
+			if p := u.Package(h); p != nil {
+				emit(synth[i], map[string]any{"kind": "synthetic", "features": []string{"helper"}, "pkg": p.Pkg().Path()}, map[string]any{}, universeObserve(u, p))
 			}
 		}
 		os.RemoveAll(dir)
